@@ -12,7 +12,9 @@ LEVEL_TEXT = ("Clause-level static rules: in array_smashing strong updates happe
               "guarded by the singleton test and preceded by killing the overlapping cells, the non-constant store either smashes "
               "the array or kills the symbolic overlap, every modified copy of an array's state is written back to the array map on "
               "every path (copy-modify-writeback), loads overwrite or forget the lhs on every path, and no array operation sets the "
-              "state to bottom except under a bottom/unsat guard. Cell-overlap arithmetic and symbolic-offset reasoning are NOT decided.")
+              "state to bottom except under a bottom/unsat guard; no store is skipped silently (r8); backward stores make every overwritten cell "
+              "lose its post-constraint and a backward range store meets the statement's invariant once (r9). Cell-overlap arithmetic and "
+              "symbolic-offset reasoning are NOT decided.")
 ASSUMPTIONS = ["the base domain's weak_assign / expand / array operations are sound (C03)",
                "offset_map overlap computations (get_overlap_cells*) are complete (numeric, not decided)"]
 
